@@ -53,6 +53,14 @@ pub async fn start_leader(config_for_port: impl Fn(u16) -> Config) -> Result<(Se
     let port = free_port();
     let server = Server::start(config_for_port(port)).await.map_err(|e| Failure::new("cluster.leader", "leader starts", e))?;
     wait_for_port(port).await?;
+    // some other process may have taken the port between the probe and the leader's bind
+    tokio::time::sleep(Duration::from_millis(2)).await;
+    if server.is_finished() {
+        let e = server.stop().await.err().unwrap_or_default();
+        let taken = e.contains("in use") || e.contains("AddrInUse");
+        let f = Failure::new("cluster.leader", "the leader keeps running after its start", &e);
+        return Err(if taken { f.sig(json!({"obs": "timeout"})) } else { f });
+    }
     Ok((server, port))
 }
 
